@@ -73,8 +73,20 @@ theorem two_le_length_of_mem {α} [DecidableEq α] {l : List α} {a b : α} (ha 
     simp at ha hb; subst ha; subst hb; exact absurd rfl hne
   | _ :: _ :: _, _, _ => simp
 
-/-- a kwarg that is present and not `None` -/
-def Given (kw : List (Str × Node)) (m : Str) : Prop := ∃ v, lookup m kw = some v ∧ notNone v = true
+/-- a kwarg that is present and neither `None` nor the empty text -/
+def Given (kw : List (Str × Node)) (m : Str) : Prop := ∃ v, lookup m kw = some v ∧ given v = true
+
+/-- a kwarg that is present and not `None` (what "omitted" negates for a required child) -/
+def Present (kw : List (Str × Node)) (m : Str) : Prop := ∃ v, lookup m kw = some v ∧ notNone v = true
+
+theorem given_notNone (v : Node) (h : given v = true) : notNone v = true := by
+  cases v with
+  | val x => cases x <;> simp_all [given, notNone]
+  | agg _ _ _ => rfl
+
+theorem Present_of_Given {kw : List (Str × Node)} {m : Str} (h : Given kw m) : Present kw m := by
+  obtain ⟨v, hl, hg⟩ := h
+  exact ⟨v, hl, given_notNone v hg⟩
 
 theorem mutexCount_two (kw : List (Str × Node)) (g : List Str) (m1 m2 : Str) (h1 : m1 ∈ g) (h2 : m2 ∈ g)
     (hne : m1 ≠ m2) (hv1 : Given kw m1) (hv2 : Given kw m2) : 2 ≤ mutexCount kw g := by
@@ -161,7 +173,7 @@ theorem C04_reject_reqmutex_two (S : Schema) (cv : Conv) (ci : Nat) (c : Cls) (a
 /-- C04 (required sub-aggregate): omitting it is rejected. -/
 theorem C04_reject_required_sub (S : Schema) (cv : Conv) (ci : Nat) (c : Cls) (args : List Node)
     (kw : List (Str × Node)) (a : Attr) (t : Nat) (hc : S.cls? ci = some c) (ha : a ∈ c.spec)
-    (hk : a.kind = .sub t) (hreq : a.required = true) (hng : ¬ Given kw a.name) :
+    (hk : a.kind = .sub t) (hreq : a.required = true) (hng : ¬ Present kw a.name) :
     ∃ e, construct S cv ci args kw = .error e := by
   apply not_ok_error
   intro n hn
@@ -186,7 +198,7 @@ theorem C04_reject_required_sub (S : Schema) (cv : Conv) (ci : Nat) (c : Cls) (a
 theorem C04_reject_required_elem (S : Schema) (cv : Conv) (ci : Nat) (c : Cls) (args : List Node)
     (kw : List (Str × Node)) (a : Attr) (hc : S.cls? ci = some c) (ha : a ∈ c.spec)
     (hl : a.kind.isList = false) (hu : a.kind.isUnsupported = false) (hst : Kind.subTarget a.kind = none)
-    (hreq : a.required = true) (hng : ¬ Given kw a.name)
+    (hreq : a.required = true) (hng : ¬ Present kw a.name)
     (hcv : ∃ e, cv.convert S.enums a.kind true .none = .error e) :
     ∃ e, construct S cv ci args kw = .error e := by
   apply not_ok_error
